@@ -1083,6 +1083,14 @@ func (m *Memberlist) aliveNode(a *alive, notify chan struct{}, bootstrap bool) {
 
 	// Bail if the incarnation number is older, and this is not about us
 	isLocalNode := state.Name == m.config.Name
+
+	// Our own update (UpdateNode) picked its incarnation before taking the
+	// lock, and a refutation may have overtaken it in between. Take a fresh
+	// incarnation rather than silently dropping the update: the caller is
+	// waiting for its broadcast and the new metadata would never be published.
+	if bootstrap && isLocalNode && ok && a.Incarnation <= state.Incarnation {
+		a.Incarnation = m.nextIncarnation()
+	}
 	if a.Incarnation <= state.Incarnation && !isLocalNode && !updatesNode {
 		return
 	}
